@@ -238,6 +238,10 @@ def _spawn(modname, tier, seed, shard, nshards, timeout, only_case=None, extra_e
     env = dict(os.environ)
     env["PYTHONHASHSEED"] = "0"
     env["PYTHONPATH"] = str(VERIF)
+    alt = os.environ.get("GSCRIB_VERIF_REPO")
+    if alt:
+        # development aid (seeded-defect trials): import gscrib from another checkout
+        env["PYTHONPATH"] = alt + os.pathsep + str(VERIF)
     env["PYTHONDONTWRITEBYTECODE"] = "1"
     env[GUARD] = "1"
     env.setdefault("OMP_NUM_THREADS", "1")
@@ -413,7 +417,7 @@ def run_check(modname, tier, seed, replay=None):
     if getattr(module, "EXHAUSTIVE", {}).get(tier):
         evidence["coverage"]["exhaustive"] = True
         evidence["coverage"]["exhaustive_scope"] = module.EXHAUSTIVE[tier]
-    if replay is None:
+    if replay is None and not os.environ.get("GSCRIB_VERIF_REPO"):
         evdir = VERIF / "evidence"
         evdir.mkdir(exist_ok=True)
         with open(evdir / f"{prop}.json", "w") as f:
